@@ -447,10 +447,16 @@ func (c *Conn) doHandshake() error {
 			c.maxStreams = c.serverS.MaxConcurrentStreams()
 			c.maxFrameSize = c.serverS.MaxFrameSize()
 
+			// What the server allows is recorded whatever it is. The encoder
+			// only follows it downwards: it is free to use less than it may.
+			// Leaving the two at 0 for a size above the default made a later
+			// SETTINGS_HEADER_TABLE_SIZE of 0 look like no change, and the
+			// encoder kept its 4096 octets against a server that allowed none.
+			c.encTableSize = st.HeaderTableSize()
+			c.encTableSizeSeen = st.HeaderTableSize()
+
 			if st.HeaderTableSize() <= defaultHeaderTableSize {
 				c.enc.SetMaxTableSize(st.HeaderTableSize())
-				c.encTableSize = st.HeaderTableSize()
-				c.encTableSizeSeen = st.HeaderTableSize()
 			}
 
 			// reply back
